@@ -1,6 +1,7 @@
 import ColumnVerif.Model.Wire
 import ColumnVerif.Model.Swap
 import ColumnVerif.Model.SnapRes
+import ColumnVerif.Model.Expire
 import Driver.Util
 /-! `codec` mode: one commit buffer driven through the writer API, read back in every way. -/
 namespace Driver.CodecMode
@@ -78,6 +79,17 @@ def step (st : St) (line : String) : St × String :=
     let r0 : ColumnVerif.SnapRes.Res := ⟨rec == "1", 10, 10⟩
     let (r1, err) := ColumnVerif.SnapRes.snapshot ColumnVerif.SnapRes.SnapCfg.good r0 ⟨op == "1", ws == "1", cp == "1"⟩
     (st, s!"rec={r1.recorder} dfd={(r1.fds : Int) - 10} dtemp={(r1.temps : Int) - 10} err={err}")
+  | ["vacuum", now, present, hex] =>
+    -- the decision one vacuum pass takes for a row: clock reading, is a deadline value stored, its 8 bytes
+    match now.toInt?, unhex hex with
+    | some n, some bs =>
+      let v : Option Bytes := if present == "1" then some bs else none
+      (st, if ColumnVerif.Store.vacuumDeletes n v then "delete" else "keep")
+    | _, _ => (st, "bad-op")
+  | ["writettl", now, ttl] =>
+    match now.toInt?, ttl.toInt? with
+    | some n, some t => (st, s!"deadline={ColumnVerif.Store.writeTTL n t}")
+    | _, _ => (st, "bad-op")
   | ["log-new"] => ({ st with log := [] }, "ok")
   | ["logplain", hex] =>
     match unhex hex with
